@@ -370,6 +370,15 @@ async fn network_connect(
     options: &MqttOptions,
     network_options: NetworkOptions,
 ) -> Result<Network, ConnectionError> {
+    #[cfg(rumqtt_verif)]
+    if let Some(socket) = crate::verif::connect_hook() {
+        return Ok(Network::new(
+            socket?,
+            options.max_incoming_packet_size,
+            options.max_outgoing_packet_size,
+        ));
+    }
+
     // Process Unix files early, as proxy is not supported for them.
     #[cfg(unix)]
     if matches!(options.transport(), Transport::Unix) {
